@@ -304,6 +304,28 @@ pub fn run(run: &mut Run) -> Finish {
             l.case(!orig.is_empty() && !aset.is_empty(), h64(&("g2", orig.len(), aset.len(), orig.first().map(|p| p.0), aset.first().map(|a| a.0 .0))));
         }
     });
+    // third grid: 2 x 3 columns, <= 2 original tokens x <= 3 adjustment tokens in every order
+    let g3: Vec<Pos> = (0..2).flat_map(|l| [0u32, 2, 4].into_iter().map(move |c| (l, c))).collect();
+    let at3: Vec<(Pos, Pos)> = g3.iter().flat_map(|&o| new_positions(o).into_iter().map(move |n| (o, n))).collect();
+    let no3 = n_multisets_upto(g3.len(), 2);
+    let na3 = n_multisets(at3.len() as u64, 3);
+    run.par_slice("grid 2x3: every multiset of <= 2 original positions x every multiset of exactly 3 adjustment tokens (6 positions x 6 displacements), every insertion order", 3, no3 * na3, |idx, l| {
+        let k = idx & ((1 << 40) - 1);
+        let orig: Vec<Pos> = multiset_upto_unrank(g3.len(), 2, k % no3).iter().map(|&i| g3[i]).collect();
+        let aset: Vec<(Pos, Pos)> = multiset_unrank(at3.len(), 3, k / no3).iter().map(|&i| at3[i]).collect();
+        let mut seen = std::collections::HashSet::new();
+        for (pi, perm) in permutations(3).iter().enumerate() {
+            let adj: Vec<(Pos, Pos)> = perm.iter().map(|&i| aset[i]).collect();
+            if !seen.insert(adj.clone()) {
+                continue;
+            }
+            let c = Case { orig: orig.clone(), adj };
+            if let Some((sig, what)) = check_case(&c) {
+                l.violation_sub(idx, pi as u64, Viol::new(format!("C10/{sig}"), what, json!({"case": serde_json::to_value(&c).unwrap()})));
+            }
+            l.case(!orig.is_empty(), h64(&("g3", orig.len(), aset.iter().map(|a| (a.0 .0, a.1 .0)).collect::<Vec<_>>())));
+        }
+    });
     Finish {
         level: "exploration",
         rule: "E1: every pair (original map, adjustment map) of the stated grids, the adjustment inserted in every order, composed by the real adjust_mappings. Oracle RCompose: stretches = [position, next position or end of line); for every non-empty overlap of an original stretch and an adjustment stretch exactly one token at the overlap start moved by the adjustment token's displacement, carrying the original's payload unchanged; nothing else; result ordered; sources/names/contents untouched. Ties: among tokens sharing one position only one has a non-empty stretch and the statement does not say which, so the result is accepted if it equals RCompose under some choice. Violations are signed by clause (missing-token, wrong-position, extra-token/<side>/stretch-empty|non-empty, not-ordered, payload-altered, metadata-changed). Distinct by construction; non-trivial = both maps non-empty; class = sizes, duplicate positions on either side, lines involved, multi-line displacement.".into(),
